@@ -312,7 +312,14 @@ impl Go {
                 let struct_name = self.acronyms_to_uppercase(&shared.id.original);
                 let content_field = content_key.to_string().to_camel_case();
                 let tag_field = self.format_field_name(tag_key.to_string(), true);
-                let struct_short_name = shared.id.original[..1].to_lowercase();
+                // the first character, not the first byte: the name may start with a multi-byte character
+                let struct_short_name = shared
+                    .id
+                    .original
+                    .chars()
+                    .next()
+                    .map(|first| first.to_lowercase().to_string())
+                    .unwrap_or_default();
                 let variant_key_type = format!(
                     "{}{}s",
                     struct_name,
